@@ -26,7 +26,12 @@ SPEC = {
                   "(startup_deadline_not_overrun, startup_timeout_fires, timeout_aborts); an application that raises is unsupported: "
                   "serving starts and no lifespan.shutdown is ever put afterwards (raised_is_unsupported, unsupported_serving_starts, "
                   "unsupported_continues); lifespan.shutdown is put at most once, with no handler alive, not before the trigger, and "
-                  "not before trigger+graceful_timeout if a handler had to be cancelled (shutdown_once_after_drain); every abnormal "
+                  "not before trigger+graceful_timeout if a handler had to be cancelled (shutdown_once_after_drain); these handlers are all the "
+                  "connections there are: once terminated is set the listeners are closed, no connect is enabled and none has happened since "
+                  "(listeners_closed_before_drain), and the order of the exit path - terminated.set(), listeners closed, THEN the bounded wait "
+                  "for the handlers (a snapshot of the connection tasks), wait_for_shutdown(), lifespan task cancelled - is read off asyncio "
+                  "worker_serve on every run and proved to be the model's (exit_path_order_is_source; trio: the listeners run in the nursery "
+                  "that is joined before terminated is set); every abnormal "
                   "end of worker_serve is attributable (serve_error_justified), an application that left the lifespan scope without "
                   "a failure never makes worker_serve fail (serve_returns_normally: every WSGI application on both workers) and "
                   "worker_serve never ends with CancelledError (no_cancelled_error); a write through one connection's scope state "
@@ -61,7 +66,7 @@ SPEC = {
                   "model comparison says something is run again alone before anything is reported and only what it says again is reported - "
                   "what does not come back is counted (not_reproduced_on_rerun) and sampled in the evidence.",
     "rule": "scenario = lifespan script (bare, or leaving through exception groups) x worker x client set (connect before / during / after "
-            "start-up with a state probe each, one request held across the trigger; isolation scenarios: two more connections after start-up, "
+            "start-up with a state probe each, one request held across the trigger; drain scenarios: a client connecting after the trigger while the held request is still in progress, with a request that outlives it; isolation scenarios: two more connections after start-up, "
             "one of which writes while the other's request is in progress, with an empty and with a seeded lifespan state; thorough: each "
             "client phase alone, two await durations, beyond-grace holder); unit: exception tree x worker; "
             "distinct = (script, worker, client phase); non-trivial = the script leaves the happy path or a client is refused / queued / "
@@ -76,6 +81,9 @@ SPEC = {
 }
 
 T_START, T_SHUT, T_GRACE = 0.4, 0.4, 0.4
+DRAIN_CONNECT = 0.05        # a client of phase `drain` connects this long after the trigger (the held request ends 0.2 s after it)
+# scripts of the `drain` scenarios in every tier (thorough: every script after which the worker listens)
+DRAIN_SCRIPTS = ("complete", "complete_late_state", "return_after_complete", "raise_before_complete", "shutdown_hang", "complete_taskgroups2")
 AWAIT = 0.15
 SLACK = 1.0
 
@@ -250,6 +258,12 @@ def scenario(name: str, worker: str, phases: List[str], await_s: float = AWAIT, 
                         "steps": [when, ["connect"], ["get", path], ["read", 2.0], ["wait_close", 2.0]]})
         if listens:
             expected[f"scope:{path}"] = 1
+    if "drain" in phases and "hold" in phases and listens:
+        # somebody connects DURING the drain: after the trigger, while the held request is still in progress, with a request that
+        # outlives it (but not the grace period).  Once shutdown has begun nothing is accepted any more; were it accepted, its
+        # handler would be one more connection `lifespan.shutdown` has to wait for.
+        clients.append({"id": 6, "kind": "h1", "phase": "drain",
+                        "steps": [["after_trigger", DRAIN_CONNECT], ["connect"], ["get", "/d/300/6"], ["read", 1.0], ["wait_close", 2.0]]})
     sc = {"property": "C14", "name": name, "worker": worker, "lifespan": SCRIPTS[name], "await_s": await_s,
           "config": {"startup_timeout": T_START, "shutdown_timeout": T_SHUT, "graceful_timeout": T_GRACE},
           "clients": clients, "phases": phases, "hold": hold, "trigger_at": trigger,
@@ -273,7 +287,16 @@ def gen(ctx: Ctx) -> List[dict]:
             out.append(scenario(name, worker, ["before", "during", "after", "hold"]))
         for name, writes in ISOLATION:
             out.append(scenario(name, worker, ["before", "during", "after", "iso", "hold"], ls_writes=writes))
+        for name in DRAIN_SCRIPTS:
+            out.append(scenario(name, worker, ["after", "hold", "drain"]))
     if ctx.thorough:
+        for worker in ("asyncio", "trio"):
+            for name in SCRIPTS:
+                f_ = script_facts(SCRIPTS[name])
+                if name not in DRAIN_SCRIPTS and not (f_["failed_before_complete"] or f_["hang_before_complete"]):
+                    out.append(scenario(name, worker, ["after", "hold", "drain"]))
+            for name in ("complete", "raise_before_complete"):
+                out.append(scenario(name, worker, ["before", "during", "after", "hold", "drain"], await_s=0.1))
         for worker in ("asyncio", "trio"):
             for name in SCRIPTS:
                 for ph in ("before", "during", "after"):
@@ -362,6 +385,18 @@ def monitors(ctx: Any, sc: dict, obs: dict, iv: dict) -> None:      # ctx: Ctx o
         alive = [p for p, t in starts.items() if t <= t_sd and (p not in ended or ended[p] > t_sd + 0.002)]
         if t_trig is None or t_sd < t_trig - 0.002 or (alive and t_sd < t_trig + G - 0.02):
             viol("shutdown_after_drain", {"shutdown_received_at": t_sd, "trigger_at": t_trig, "handlers_alive": alive})
+    # 5b. once shutdown has begun no connection is accepted: a client that connects after the trigger (phase `drain`: while an older
+    #     request is still in progress) never reaches the application and is never answered
+    for c in sc["clients"]:
+        if c["phase"] == "drain":
+            p = iv["per"].get(c["id"], {})
+            paths = [st[1] for st in c["steps"] if st[0] == "get"]
+            reached = [(t, d.get("path")) for t, d in served if d.get("path") in paths]
+            answered = [r["status"] for r in p.get("responses", []) if r["status"] is not None]
+            if reached or answered:
+                viol("accepts_after_trigger", {"client": c["id"], "connect": p.get("connect"), "connected_at": p.get("connect_t"), "trigger_at": t_trig,
+                                               "request_reached_application_at": reached, "answered": answered,
+                                               "lifespan_shutdown_received_at": t_sd})
     # 6. worker_serve ends abnormally only for a reason the application gave
     allowed = set()
     if facts["sends_failed"]:
